@@ -74,6 +74,12 @@ func isGlobal(t *T, name string) bool {
 	return t != nil && t.Op == "init" && t.Args[0].Op == "global" && strings.HasSuffix(t.Args[0].Aux, "."+name)
 }
 
+// movedFailureResult: f is the result constructor the rules know as internal.FailureResult, found by its role in
+// another package of the tree.
+func movedFailureResult(p *Program, f *ssa.Function) bool {
+	return f != nil && funcCanon[f] == "FailureResult" && f == p.byName["internal.FailureResult"]
+}
+
 func inlinePkgs(p *Program, pkgs ...string) func(*ssa.Function, int) bool {
 	return func(f *ssa.Function, depth int) bool {
 		if !p.InScope[f] || f.Pkg == nil {
@@ -81,6 +87,10 @@ func inlinePkgs(p *Program, pkgs ...string) func(*ssa.Function, int) bool {
 		}
 		for _, k := range pkgs {
 			if f.Pkg.Pkg.Name() == k {
+				return true
+			}
+			// the result constructor of package internal, wherever it lives now
+			if k == "internal" && movedFailureResult(p, f) {
 				return true
 			}
 		}
@@ -246,7 +256,19 @@ func c10Apply(c *Ctx) {
 			isf := eventsWhere(p, func(e *Event) bool {
 				return isCall(e, "IsFailure") && len(e.Args) == 2 && e.Args[0] == fr && e.Args[1] == fe
 			})
-			if len(isf) == 0 || isf[len(isf)-1].Fn != info.Slots["IsFailure"] {
+			direct := false
+			if len(isf) > 0 && isf[len(isf)-1].Fn != info.Slots["IsFailure"] {
+				// the policy's own BaseFailurePolicy.IsFailure called directly: the same classification when ToExecutor
+				// hands that very object to the BaseExecutor (whose IsFailure slot delegates to it)
+				l := isf[len(isf)-1]
+				if l.Fn != nil && l.Fn == c.P.Func("policy.(*BaseFailurePolicy).IsFailure") && l.Recv != nil && loadedField(l.Recv) == "BaseFailurePolicy" && l.Recv.Contains(ee.X) &&
+					info.Slots["IsFailure"] == c.P.Func("policy.(*BaseExecutor).IsFailure") {
+					if _, wired, _ := toExecutorWires(c.P, "fallback"); wired {
+						direct = true
+					}
+				}
+			}
+			if len(isf) == 0 || (isf[len(isf)-1].Fn != info.Slots["IsFailure"] && !direct) {
 				bad("the fallback's output must be classified by the same IsFailure conditions")
 				continue
 			}
@@ -405,7 +427,7 @@ func c11Pre(c *Ctx) {
 	name, pos := c.fn(fn), c.P.FuncPos(fn)
 	ee := c.NewExecEval(info, EvalConfig{Inline: func(f *ssa.Function, d int) bool {
 		// … and the result constructors of package internal (a hand-built hit result and a helper that builds it are one value)
-		return canonName(f) == "getCacheKey" || (c.P.InScope[f] && f.Pkg != nil && f.Pkg.Pkg.Name() == "internal")
+		return canonName(f) == "getCacheKey" || (c.P.InScope[f] && f.Pkg != nil && (f.Pkg.Pkg.Name() == "internal" || movedFailureResult(c.P, f)))
 	}})
 	ev, ts := ee.Ev, ee.Ev.TS
 	exec := ee.Sym("exec", fn.Params[1].Type())
@@ -513,7 +535,7 @@ func c11Post(c *Ctx) {
 	name, pos := c.fn(fn), c.P.FuncPos(fn)
 	ee := c.NewExecEval(info, EvalConfig{Inline: func(f *ssa.Function, d int) bool {
 		// … and the result constructors of package internal (a hand-built hit result and a helper that builds it are one value)
-		return canonName(f) == "getCacheKey" || (c.P.InScope[f] && f.Pkg != nil && f.Pkg.Pkg.Name() == "internal")
+		return canonName(f) == "getCacheKey" || (c.P.InScope[f] && f.Pkg != nil && (f.Pkg.Pkg.Name() == "internal" || movedFailureResult(c.P, f)))
 	}})
 	ev, ts := ee.Ev, ee.Ev.TS
 	exec := ee.Sym("exec", fn.Params[1].Type())
@@ -602,6 +624,11 @@ func c11Post(c *Ctx) {
 					bad("OnResultCached must fire exactly once after the result was stored (when set)")
 				} else if len(cached) == 1 && cached[0].Idx < sets[0].Idx {
 					bad("OnResultCached fires before the result is stored")
+				} else if len(cached) == 1 {
+					evt := cached[0].Args[0]
+					if !(evt.Op == "struct" && len(evt.Args) == 1 && copyOf(p, evt.Args[0], exec, er)) {
+						bad("OnResultCached must carry a copy of the execution with the result that was stored (exec.CopyWithResult(result)): the execution's own last result lags one attempt behind")
+					}
 				}
 			case triF:
 				if len(sets) != 0 || len(cached) != 0 {
@@ -971,7 +998,7 @@ func c06Pairing(c *Ctx) {
 		if opaque[canonName(f)] || !c.P.InScope[f] || f.Pkg == nil {
 			return false
 		}
-		return f.Pkg.Pkg.Name() == "bulkhead" || f.Pkg.Pkg.Name() == "policy" || f.Pkg.Pkg.Name() == "internal"
+		return f.Pkg.Pkg.Name() == "bulkhead" || f.Pkg.Pkg.Name() == "policy" || f.Pkg.Pkg.Name() == "internal" || movedFailureResult(c.P, f)
 	}})
 	paths, innerFn, exec := ee.RunApply()
 	ev, ts := ee.Ev, ee.Ev.TS
